@@ -470,6 +470,8 @@ class McPart(Part):
                         ctx.violations.append((f[1], f[2], f[3]))
                 if line.startswith('MC ') and os.environ.get('VERIF_VERBOSE'):
                     print(line)
+            if os.environ.get('VERIF_VERBOSE'):
+                print('SCENARIO-TIME %s %.1fs' % (sc[1], dt))
             if pr.returncode != 0 or not os.path.exists(evp):
                 raise ToolError('scenario %s failed (exit %d):\n%s' % (sc[1], pr.returncode, '\n'.join(pr.stdout.splitlines()[-40:])))
             ev = json.load(open(evp))
